@@ -636,4 +636,7 @@ VARIANTS += [
     fire('r10-cost-merge-setter-inverted', ['C09'], [(CS, "        if current and not value:\n            self.raw_asterisk = None\n        elif not current and value:", "        if current and not value:\n            self.raw_asterisk = None\n        elif value:")], 'COST-SEM'),
     silent('r10-twin-cost-into-total-splice', ['C09', 'C05'], [('autobean_refactor/models/cost.py', "        self.token_store.replace(self._left_brace, dbl_left_brace)\n        self.token_store.replace(self._right_brace, dbl_right_brace)\n", "        store = self.token_store\n        store.replace(self._right_brace, dbl_right_brace)\n        store.replace(self._left_brace, dbl_left_brace)\n")]),
     silent('r10-twin-cost-merge-setter-compare', ['C09'], [(CS, "        if current and not value:\n            self.raw_asterisk = None\n        elif not current and value:", "        if current == bool(value):\n            return\n        if current:\n            self.raw_asterisk = None\n        else:")]),
+    fire('r10-spacing-follow-line-endings', ['C17'], [(SP, "def _find_spacing(", "def _follow_line_endings(model: base.RawModel, text: str) -> str:\n    if model.token_store is None or '\\n' not in text:\n        return text\n    for token in model.token_store:\n        if isinstance(token, Newline):\n            if token.raw_text.endswith('\\r\\n'):\n                return re.sub(r'(?<!\\r)\\n', '\\r\\n', text)\n            break\n    return text\n\n\ndef _find_spacing("), (SP, "        self.raw_spacing_before = tuple(_text_to_tokens(value))", "        self.raw_spacing_before = tuple(_text_to_tokens(_follow_line_endings(self, value)))")], 'SP-ROUTE'),
+    fire('r10-spacing-trailing-blanks-as-indent', ['C17'], [(SP, "from ..spacing import Newline, Whitespace\n", "from ..spacing import Newline, Whitespace\nfrom .registry import TOKEN_MODELS\n"), (SP, "    for whitespace, newline in _SPACING_GROUP_RE.findall(text):\n        if whitespace:\n            yield Whitespace.from_raw_text(whitespace)", "    groups = _SPACING_GROUP_RE.findall(text)\n    for i, (whitespace, newline) in enumerate(groups):\n        if whitespace:\n            if 0 < i == len(groups) - 1 and groups[i - 1][1]:\n                yield TOKEN_MODELS['INDENT'].from_raw_text(whitespace)\n            else:\n                yield Whitespace.from_raw_text(whitespace)")], 'SP-ROUTE'),
+    silent('r10-twin-spacing-classes-from-registry', ['C17'], [(SP, "from ..spacing import Newline, Whitespace\n", "from ..spacing import Newline, Whitespace\nfrom .registry import TOKEN_MODELS\n"), (SP, "            yield Whitespace.from_raw_text(whitespace)", "            yield TOKEN_MODELS['WHITESPACE'].from_raw_text(whitespace)")]),
 ]
